@@ -5,5 +5,6 @@ CONSTANTS
   LastChanceAny = {}
   WalkSorted = TRUE
   AssumeUserRange = TRUE
-INVARIANTS SoundName ExactWins NeverAnotherOverload Deterministic ErrorOnlyIfNothing OwnActionReachable PropertyEventId NamesDistinct NamesCover NamesStable FirstKeepsBare FullKeepsIdsUnique FullKeepsActions FullHasGeneric FullIdempotent ActionNameSound
+  QueryTypes = {"lookup", "names", "full", "action"}
+INVARIANTS SoundName ExactWins ErrorOnlyIfNothing OwnActionReachable PropertyEventId NeverAnotherOverload Deterministic NamesDistinct NamesCover NamesStable FirstKeepsBare FullKeepsIdsUnique FullKeepsActions FullHasGeneric FullIdempotent ActionNameSound
 CHECK_DEADLOCK FALSE
